@@ -57,7 +57,8 @@ class Section(Entity):
         newentity = super(Section, cls).create_new(nixfile, nixparent,
                                                    h5parent, name, type_)
         if util.is_uuid(oid):
-            newentity._h5group.set_attr("entity_id", oid)
+            # is_uuid looks at str(oid): that text is what gets stored
+            newentity._h5group.set_attr("entity_id", str(oid))
 
         return newentity
 
